@@ -596,4 +596,14 @@ def rule_kernel_inputs(ck):
                 '-N_j ln N_fore, which changes the quantile)' % (u(bad[0])[:80], f.short)) if bad else o.ok())
 
 
-RULES = [rule_status, rule_undersampling, rule_guards, rule_every_catalog, rule_first_difference, rule_formulas, rule_classes, rule_forecast_state, rule_kernel_inputs]
+def rule_gridded_counts_shared(ck):
+    """the statistics are computed from each catalog's gridded counts: every event counted once (duplicate-safe accumulation), no
+    sentinel used as an index, magnitudes binned by the kernel in their stored type (shared C03-D1/D2, C02-D4)"""
+    from . import c03, c02
+    ck.clause('D4 (shared C03-D1/D2, C02-D4: the gridded counts of the catalogs)')
+    c03.rule_mag_sentinel(ck)
+    c03.rule_accumulation(ck)
+    c02.rule_callsites(ck)
+
+
+RULES = [rule_status, rule_undersampling, rule_guards, rule_every_catalog, rule_first_difference, rule_formulas, rule_classes, rule_forecast_state, rule_kernel_inputs, rule_gridded_counts_shared]
